@@ -59,3 +59,9 @@ Proof. split; reflexivity. Qed.
 From SymfcG Require Import ShapesGeom ShapesCombos.
 Theorem c07_recorded_sources_in_force : ShapesGeom_as_recorded = true /\ ShapesCombos_as_recorded = true.
 Proof. repeat split; reflexivity. Qed.
+
+(** The remaining source this property rests on is the recorded one (the basis-set classes of orders 2-4; the orbit routines; the Symfc facade): whole-function match,
+    regenerated on every run (closes the gap between "the expected statements are present" and "nothing else was added"). *)
+From SymfcG Require Import ShapesBasis ShapesPerm ShapesApi.
+Theorem c07_recorded_sources2_in_force : ShapesBasis_as_recorded = true /\ ShapesPerm_as_recorded = true /\ ShapesApi_as_recorded = true.
+Proof. repeat split; reflexivity. Qed.
